@@ -79,6 +79,9 @@ pub enum P {
     SpawnJoin(S, S),
     /// async: req a; then the task spawns a second task which notifies the shell (site m, arg = value)
     SpawnAfter(S, S),
+    /// async: the task spawns a child that emits event(mark m) at once, then suspends on req a in the same
+    /// poll without having emitted anything itself; event(a) when answered   (mark site, request site)
+    SpawnEvent(S, S),
     /// async: events m0,m1 ; req a ; events m2,m3   (mark site, request site)
     Burst(S, S),
     /// async: self-waking future k times, then event
@@ -159,7 +162,7 @@ impl P {
             P::Event(a) | P::Notify(a) | P::Req(a) | P::Stream(a) | P::ReqMap(a) | P::StreamMap(a) | P::QuietSelfAbort(a)
             | P::SelfWake(a, _) | P::Trigger(a, _) | P::SiblingAbort(a, _) | P::JoinHosted(a, _) => vec![a],
             P::ReqReq(a, b) | P::ReqStream(a, b) | P::StreamReq(a, b) | P::StreamStream(a, b)
-            | P::Join(a, b) | P::Select(a, b) | P::SpawnJoin(a, b) | P::SpawnAfter(a, b) | P::Burst(a, b) | P::Channel(a, b)
+            | P::Join(a, b) | P::Select(a, b) | P::SpawnJoin(a, b) | P::SpawnAfter(a, b) | P::SpawnEvent(a, b) | P::Burst(a, b) | P::Channel(a, b)
             | P::Unordered(a, b) | P::JoinTwice(a, b) | P::MixedNotify(a, b) | P::AbortSpawned(a, b) | P::SelfAbort(a, b)
             | P::StreamUntil(a, b) | P::SpawnChain(a, b) | P::StreamHandOff(a, b) => vec![a, b],
             P::AbortChild(a, b, c) | P::IntoFuture(a, b, c) | P::JoinReq(a, b, c) | P::SelectJoinReq(a, b, c) | P::HandOff(a, b, c)
@@ -206,7 +209,7 @@ impl P {
             match p {
                 P::Event(_) | P::SelfWake(..) => {}
                 P::Trigger(..) => {}
-                P::SpawnJoin(a, _) | P::Burst(_, a) | P::JoinTwice(a, _) => a.label = label,
+                P::SpawnJoin(a, _) | P::Burst(_, a) | P::SpawnEvent(_, a) | P::JoinTwice(a, _) => a.label = label,
                 P::AbortChild(a, b, _) => {
                     a.label = label;
                     b.label = label;
